@@ -1,3 +1,97 @@
+//! C01 - Value lanes: subscribers see an ordered, gap-tolerant, never-stale view.
+//! Engine E1 over the agent-system harness: real agent + runtime future, scripted remotes that
+//! link/sync/command a value lane (commands and handler-originated sets), slow and fast readers,
+//! tiny and large channels, every schedule within the deviation bound.
+
+use asys::grid::{grid, replay, run_grid, GridSpec};
+use asys::oracle::{check_c01, check_c04};
+use asys::scripts::*;
+use asys::world::{set_checker, Mode, Observation, Step};
+use vcommon::Ctx;
+
+fn checker(obs: &Observation) -> Vec<(String, String)> {
+    let mut v = check_c01(obs);
+    // frames must also be well formed (a fabricated body is a C01 violation too: "never invented")
+    for (s, e) in check_c04(obs) {
+        if s.contains("never produced") || s.contains("undecodable") {
+            v.push((s, e));
+        }
+    }
+    v
+}
+
+fn setv(xs: &[i32]) -> Step {
+    let ops: Vec<String> = xs.iter().map(|x| format!("@setv({})", x)).collect();
+    let refs: Vec<&str> = ops.iter().map(|s| s.as_str()).collect();
+    act(&refs)
+}
+
+fn scripts(quick: bool) -> Vec<(Vec<(usize, Step)>, usize)> {
+    let observer = vec![link("v")];
+    let syncer = vec![sync("v")];
+    let writer = vec![link("v"), cmd("v", "1"), cmd("v", "2")];
+    let handler_writer = vec![setv(&[4, 5]), setv(&[6])];
+    let sync_write_unlink = vec![sync("v"), setv(&[7]), unlink("v")];
+    let resync = vec![link("v"), sync("v"), cmd("v", "8"), sync("v")];
+    let two_lanes = vec![link("w"), link("v"), cmd("w", "9"), cmd("v", "10")];
+    let burst = vec![link("v"), setv(&[11, 12, 13, 14])];
+    let late = vec![cmd("v", "20"), cmd("v", "21"), link("v")];
+    let mut out: Vec<(Vec<(usize, Step)>, usize)> = vec![];
+    // single remote
+    for s in [&writer, &sync_write_unlink, &resync, &two_lanes, &burst, &late] {
+        out.push((sequential(&[s.clone()]), 1));
+    }
+    // observer + writer pairs: all interleavings for short ones, alternating for longer
+    let pairs: Vec<(&Vec<Step>, &Vec<Step>)> = vec![
+        (&observer, &writer),
+        (&syncer, &handler_writer),
+        (&observer, &handler_writer),
+        (&syncer, &writer),
+        (&sync_write_unlink, &writer),
+        (&resync, &handler_writer),
+        (&two_lanes, &observer),
+        (&burst, &syncer),
+    ];
+    for (a, b) in pairs {
+        let all = interleavings(&[a.clone(), b.clone()]);
+        let step = if quick { (all.len() / 4).max(1) } else { 1 };
+        for (i, s) in all.into_iter().enumerate() {
+            if i % step == 0 {
+                out.push((s, 2));
+            }
+        }
+    }
+    // three remotes: observer, syncer, writer
+    out.push((sequential(&[observer.clone(), syncer.clone(), writer.clone()]), 3));
+    out.push((sequential(&[writer.clone(), observer.clone(), syncer.clone()]), 3));
+    if !quick {
+        for s in interleavings(&[observer.clone(), syncer.clone(), vec![cmd("v", "1"), setv(&[2, 3])]]) {
+            out.push((s, 3));
+        }
+    }
+    out
+}
+
 fn main() {
-    vcommon::machinery_failure("C01: engine not built yet");
+    let ctx = Ctx::from_env("C01");
+    set_checker(checker);
+    if let Some(r) = ctx.replay_request() {
+        replay(&ctx, r);
+        ctx.finish("model_checking", "replay");
+    }
+    let quick = ctx.quick();
+    let sc = scripts(quick);
+    let modes = [Mode::Eager, Mode::Burst, Mode::SlowRead];
+    let cfgs = grid(&sc, &[8, 48, 4096], &[2, 3, 64], &modes, &[0]);
+    run_grid(&ctx, GridSpec { name: "as-value-grid-d1".into(), cfgs, bound: 1, max_exec_per_cfg: 20_000, wall_cap_s: if quick { 25.0 } else { 900.0 } });
+    // core: tightest capacity, small credit, d <= 2
+    let core: Vec<_> = sc.iter().filter(|(s, _)| s.len() <= 5).cloned().collect();
+    let cfgs = grid(&core, &[8], &[2, 64], &[Mode::Eager, Mode::SlowRead], &[0, 7]);
+    run_grid(&ctx, GridSpec { name: "as-value-core-d2".into(), cfgs, bound: if quick { 2 } else { 3 }, max_exec_per_cfg: if quick { 20_000 } else { 3_000_000 }, wall_cap_s: if quick { 20.0 } else { 1200.0 } });
+    ctx.assume("tokio select! start index and HashMap iteration order are fixed per VERIF_SEED (deterministic interposer), not enumerated");
+    ctx.assume("values are i32; every value written in a run is distinct so a received value identifies its write");
+    ctx.finish(
+        "model_checking",
+        "deviation-bounded exhaustive schedule exploration of the real agent+runtime future; per remote and link session the received values must embed in order into the ground-truth history and equal the lane's value at quiescence",
+    );
 }
